@@ -8,6 +8,7 @@ from .c13 import CHAINS, N, P, HALF, secrets, hist_shrinks, b58check
 from . import c13_hist as H
 
 MAGIC = 'Bitcoin Signed Message:\n'
+GX = 0x79BE667EF9DCBBAC55A06295CE870B07029BFCDB2DCE28D959F2815B16F81798
 ALPH = ['a', 'Z', '0', ' ', '\n', '\t', '\x00', '\x7f', '\x80', 'é', 'ß', 'Ж', '߿', 'ࠀ', '€', '中',
         '￿', '\U00010000', '😀', '\U0010ffff', '"', '\\']
 
@@ -60,7 +61,8 @@ class C14(Prop):
         'serVarInt_eq_compactSize', 'serBytes_eq_varBytes', 'msg_digest_eq_spec', 'msg_digest_text', 'magic_prefix',
         'msg_digest_too_long', 'headerByte_eq_spec', 'header_range', 'header_roundtrip', 'headerDecode_eq_spec',
         'header_decode_encode', 'recoverCompact_length', 'recoverCompact_header', 'verify_true_only_if', 'verify_true_if',
-        'base58_text_injective', 'verify_base58_address', 'verify_other_message',
+        'base58_text_injective', 'verify_base58_address', 'verify_other_message', 'o15_verify_accepts_infinity_key',
+        'o15_recovery_gives_infinity',
         'verify_false_other', 'recover_correct', 'verify_recovered', 'signCompact_layout',
         'signCompact_error')]
     anchors = [('bitcoin/signmessage.py', 'VerifyMessage'), ('bitcoin/signmessage.py', 'SignMessage'),
@@ -70,9 +72,18 @@ class C14(Prop):
     level = 'proof'
     trusted_base = ['Crypto.Secp256k1 (Lean) is the reference curve for recovery; group laws not proved',
                     'OpenSSL arithmetic and random nonces are outside the model: covered only by this run',
-                    'Lean String.toUTF8 is the reference UTF-8 encoder; addresses are compared as (version, payload), '
-                    'the base58 text level is injective by C10']
+                    'Lean String.toUTF8 is the reference UTF-8 encoder; addresses are compared as TEXT (the model computes the '
+                    'Base58Check text of the recovered key\'s P2PKH address; C10 gives injectivity for base58 addresses)']
     assumptions = ['text messages are sequences of Unicode scalar values (no lone surrogates)',
+                   'O15 (observation OUTSIDE the property: not a signature produced by message signing; model mirrors it, '
+                   'T2 strict, theorems o15_verify_accepts_infinity_key / o15_recovery_gives_infinity + a kernel-checked '
+                   'instance): the compact signature 1b||x(G)||(e mod n) recovers the point at infinity for ANY digest e; '
+                   'OpenSSL serialises it as 00 and calls it fully valid, so VerifyMessage answers True for the P2PKH '
+                   'address of Hash160(00) and any message (Bitcoin Core rejects an invalid recovered key)',
+                   'O16: BitcoinMessage.stream_deserialize always raises AttributeError (cls(bytes, bytes) calls .encode on '
+                   'bytes) and __str__ raises on non-ASCII; outside the sign/verify path, not modelled',
+                   'T2 ONLY: "65 bytes" and the base64 wrapper of SignMessage (signCompact_layout gives the 64 bytes r||s); '
+                   'segwit/bech32 address texts differ from every Base58 text (no theorem; compared in c14.msg and histories)',
                    'T2 ONLY: the recovered key is the signer\'s (recover_correct / verify_recovered are abstract algebra; '
                    'recover_eq_reference UNPROVED); "false for any other message" rests on verify_other_message '
                    '(abstract: recovery is injective in the digest residue) plus collision resistance of SHA-256d and '
@@ -153,7 +164,8 @@ class C14(Prop):
             reqs += ['c13.signLowS\t%d\t%s\t%d' % (s, d, k), 'c13.pubkey\t%d\t1' % s, 'c13.pubkey\t%d\t0' % s]
         outs = self.ask(reqs)
         hreq = ['c13.hash160\t' + outs[3 * q + 1 + e] for q in range(len(sub)) for e in (0, 1)]
-        h160 = self.ask(hreq)
+        h160 = self.ask(hreq + ['c13.hash160\t00'])
+        h160inf = h160.pop()
         for q, ((j, s), d, t) in enumerate(zip(sub, digs, texts)):
             if outs[3 * q] == 'none':
                 continue
@@ -177,6 +189,15 @@ class C14(Prop):
                 yield mk('c14.verify', chain, atext(v, pl), cps(MAGIC), cps(t), sg.hex(), tag='verify-lean-signed')
             yield mk('c14.verify', chain, atext(ver, hc), cps(MAGIC), cps(perturb(rng, t)), good_c.hex(), tag='verify-perturbed')
             yield mk('c14.verify', chain, atext(ver, hc), cps('X'), cps(t), good_c.hex(), tag='verify-magic')
+            # O15 (outside the property: not a signature produced by signing): r = x(G), s = e mod n recovers the point
+            # at infinity, which OpenSSL serialises as `00` and accepts as a key; compared strictly to tie the model
+            e_ = int(d, 16) % N
+            if e_:
+                for hb in (27, 31):
+                    forged = bytes([hb]) + GX.to_bytes(32, 'big') + e_.to_bytes(32, 'big')
+                    yield mk('c14.recoverCompact', d, forged.hex(), tag='infinity-key')
+                    yield mk('c14.verify', chain, atext(ver, h160inf), cps(MAGIC), cps(t), forged.hex(), tag='infinity-key')
+                    yield mk('c14.verify', chain, atext(ver, hc), cps(MAGIC), cps(t), forged.hex(), tag='infinity-key')
             # the digest handed to recover_compact need not be 32 bytes: the code shifts longer ones
             for ln in (0, 1, 31, 33, 34, 64):
                 hv = bytes(rng.randrange(256) for _ in range(ln))
